@@ -243,7 +243,21 @@ type pki struct {
 	notAfter time.Time
 }
 
-var serverNames = []string{"a.test", "b.test"}
+// Config.ServerName shapes: DNS names, a name with a trailing dot, IPv4/IPv6 literals, and none at all (the cache key
+// is then the remote address; only possible with InsecureSkipVerify). Model id of a name = index+1, of "" = 0.
+var serverNames = []string{"a.test", "b.test", "a.test.", "127.0.0.1", "127.0.0.2", "::1", ""}
+
+const nameEmpty = 6
+
+func nameID(i int) int {
+	if serverNames[i] == "" {
+		return 0
+	}
+	return i + 1
+}
+
+// model id of a listener address (RemoteAddr of the client's connection)
+func addrID(kind int) int { return 10 + kind }
 
 func newPKI() *pki {
 	// own CA and leaf, valid for 40 days: histories move the clock by days
@@ -256,7 +270,8 @@ func newPKI() *pki {
 	ca, _ := x509.ParseCertificate(caDER)
 	k, _ := ecdsa.GenerateKey(elliptic.P256(), rand.Reader)
 	t := &x509.Certificate{SerialNumber: big.NewInt(2), Subject: pkix.Name{CommonName: serverNames[0]},
-		NotBefore: nb, NotAfter: na, DNSNames: serverNames, KeyUsage: x509.KeyUsageDigitalSignature,
+		NotBefore: nb, NotAfter: na, DNSNames: []string{"a.test", "b.test"},
+		IPAddresses: []net.IP{net.ParseIP("127.0.0.1"), net.ParseIP("127.0.0.2"), net.ParseIP("::1")}, KeyUsage: x509.KeyUsageDigitalSignature,
 		ExtKeyUsage: []x509.ExtKeyUsage{x509.ExtKeyUsageServerAuth}}
 	der, _ := x509.CreateCertificate(rand.Reader, t, ca, &k.PublicKey, caKey)
 	pool := x509.NewCertPool()
@@ -345,9 +360,10 @@ func (s *server) close() { s.ln.Close(); s.wg.Wait() }
 // ---------- recording session cache ----------
 
 type cacheEvent struct {
-	Put bool
-	Key string
-	Nil bool // Put(key, nil) / Get miss
+	Put  bool
+	Key  string
+	Nil  bool // Put(key, nil) / Get miss
+	Info tls.VerifC19Session
 }
 
 type recCache struct {
@@ -359,14 +375,15 @@ type recCache struct {
 func (c *recCache) Get(k string) (*tls.ClientSessionState, bool) {
 	cs, ok := c.inner.Get(k)
 	c.mu.Lock()
-	c.ev = append(c.ev, cacheEvent{false, k, !ok || cs == nil})
+	c.ev = append(c.ev, cacheEvent{Put: false, Key: k, Nil: !ok || cs == nil})
 	c.mu.Unlock()
 	return cs, ok
 }
 func (c *recCache) Put(k string, cs *tls.ClientSessionState) {
 	c.inner.Put(k, cs)
 	c.mu.Lock()
-	c.ev = append(c.ev, cacheEvent{true, k, cs == nil})
+	info, _ := tls.VerifC19SessionInfo(cs)
+	c.ev = append(c.ev, cacheEvent{Put: true, Key: k, Nil: cs == nil, Info: info})
 	c.mu.Unlock()
 }
 func (c *recCache) take() []cacheEvent {
@@ -422,7 +439,8 @@ type connObs struct {
 	Srv        srvResult
 	SrvSeen    bool
 	Events     []cacheEvent
-	After      map[string]tls.VerifC19Session // cache content per server name after the connection
+	After      map[int]tls.VerifC19Session // cache content after the connection, by model key id (names and listener addresses)
+	Identity   string                      // what the property calls the server name: Config.ServerName, or "@"+remote address without one
 	Now        uint64
 	LenPre     int
 	LenPost    int
@@ -448,8 +466,22 @@ func newWorld(pk *pki, seed int64) (*world, error) {
 		}
 		w.srvs[k] = s
 	}
-	w.cache = &recCache{inner: tls.NewLRUClientSessionCache(8)}
+	w.cache = &recCache{inner: tls.NewLRUClientSessionCache(32)}
 	return w, nil
+}
+
+// keys: every string the cache could be keyed by in this world, by model id
+func (w *world) keys() map[int]string {
+	m := map[int]string{}
+	for i, n := range serverNames {
+		if n != "" {
+			m[nameID(i)] = n
+		}
+	}
+	for k, s := range w.srvs {
+		m[addrID(k)] = s.ln.Addr().String()
+	}
+	return m
 }
 
 func (w *world) close() {
@@ -473,6 +505,12 @@ func (w *world) connect(pl connPlan) (o connObs) {
 	defer tc.Close()
 	tc.SetDeadline(time.Now().Add(10 * time.Second))
 	crc := &recConn{Conn: tc}
+	o.Identity = serverNames[pl.Name]
+	if o.Identity == "" {
+		o.Identity = "@" + s.ln.Addr().String()
+		pl.SkipVerify = true // a hello without ServerName is refused unless verification is off
+		o.Plan = pl
+	}
 	cfg := &tls.Config{ServerName: serverNames[pl.Name], RootCAs: w.pk.pool, ClientSessionCache: w.cache,
 		Time: w.clk.now, OmitEmptyPsk: pl.OmitEmpty, InsecureSkipVerify: pl.SkipVerify}
 	id := pl.P.ID
@@ -523,11 +561,11 @@ func (w *world) connect(pl connPlan) (o connObs) {
 	o.CliHRRSeen = isHRR(crc.buf)
 	crc.mu.Unlock()
 	o.Events = w.cache.take()
-	o.After = map[string]tls.VerifC19Session{}
-	for _, n := range serverNames {
-		if cs, ok := w.cache.inner.Get(n); ok {
+	o.After = map[int]tls.VerifC19Session{}
+	for id, k := range w.keys() {
+		if cs, ok := w.cache.inner.Get(k); ok {
 			if info, ok := tls.VerifC19SessionInfo(cs); ok {
-				o.After[n] = info
+				o.After[id] = info
 			}
 		}
 	}
